@@ -246,6 +246,7 @@ def c06_case(case):
     rng = random.Random(case["seed"])
     seed, n, indent = case["item"], case["n"], case["indent"]
     tool, cid = seed["tool"], seed["codemod"]
+    D = case.get("dir", "pkg")      # a tool's finding is acted on wherever the file lies: the default excludes of find-and-fix codemods do not apply
     lay = sites.build(seed["code"], n, [rng.randint(1, 3) for _ in range(n)], indent)
     if lay is None:
         return {"drop": "layout"}
@@ -258,13 +259,13 @@ def c06_case(case):
         out = {"codemod": cid, "tool": tool, "n": n, "indent": indent, "runs": []}
         subsets = [set(s) for k in range(0, n + 1) for s in itertools.combinations(range(n), k)]
         for S in subsets:
-            e2e.write_project(proj, {"pkg/code.py": lay.text, "pkg/other.py": lay.text})
+            e2e.write_project(proj, {f"{D}/code.py": lay.text, f"{D}/other.py": lay.text})
             placed, ids = [], {}
             for i in range(n):
                 dl = lay.offsets[i] - lay.header_len
                 for j, (kind, e) in enumerate(ents):
                     ident = (1000 * (i + 1) + j) if tool == "defectdojo" else f"K{i}-{j}"
-                    pe = place_entry(tool, e, "pkg/code.py", dl, indent, ident)
+                    pe = place_entry(tool, e, f"{D}/code.py", dl, indent, ident)
                     if i in S:
                         placed.append((kind, pe))
                         ids.setdefault(i, []).append(str(ident))
@@ -276,7 +277,7 @@ def c06_case(case):
                 for i in range(n):
                     dl = lay.offsets[i] - lay.header_len
                     for j, (kind, e) in enumerate(ents):
-                        pe = place_entry(tool, e, "pkg/code.py", dl, indent, (9000 + 10 * i + j) if tool == "defectdojo" else f"F{i}-{j}")
+                        pe = place_entry(tool, e, f"{D}/code.py", dl, indent, (9000 + 10 * i + j) if tool == "defectdojo" else f"F{i}-{j}")
                         if tool == "sonar": pe["rule" if "rule" in pe else "ruleKey"] = "python:S99999"
                         elif tool == "semgrep": pe["ruleId"] = "foreign.rule.id"
                         else: pe["title"] = "foreign.rule.id"
@@ -297,9 +298,9 @@ def c06_case(case):
                 rf.write_text(json.dumps(build_doc(tool, seed["results"], part)))
                 rfs.append(str(rf))
             r = e2e.run(proj, ["--codemod-include", cid, seed["flag"], ",".join(rfs)])
-            after = (proj / "pkg/code.py").read_text()
+            after = (proj / f"{D}/code.py").read_text()
             rew = sites.rewritten_sites(lay, after)
-            other_changed = (proj / "pkg/other.py").read_text() != lay.text
+            other_changed = (proj / f"{D}/other.py").read_text() != lay.text
             entries = []
             for res in (r["report"] or {}).get("results", []):
                 for cs in res["changeset"]:
@@ -351,6 +352,13 @@ def search(ctx):
             if multi and not ctx.thorough:
                 # the same findings once more, the other way round: in one file / over two files, another order
                 cases.append({"item": it, "n": n, "indent": indent, "seed": rng.randint(0, 10**9), "decoys": True, "split": k % 2 == 1, "order": ["desc", "shuffle", "asc"][k % 3]})
+    # the same with the files in places the find-and-fix defaults exclude (tests/, build/): one case per tool
+    seen_tools = set()
+    for it in items:
+        if it["tool"] not in seen_tools:
+            seen_tools.add(it["tool"])
+            cases.append({"item": it, "n": 2, "indent": 0, "seed": rng.randint(0, 10**9), "decoys": True, "split": False, "order": "asc",
+                          "dir": ["tests", "build/lib"][len(seen_tools) % 2]})
     used = set()
     for c, r in zip(cases, impl.pool_map(c06_case, cases)):
         if r[0] != "ok":
